@@ -110,11 +110,21 @@ def trunc_case(draw, sub="trunc"):
 
 
 # ----------------------------------------------------------------------------- judging one run
-def run_cutadapt(data, name, cores, buffer, simulate=None, timeout=30, extra=()):
-    args = list(extra) + ["-a", ADAPTER, "-o", "out.fastq"]
+def run_cutadapt(data, name, cores, buffer, simulate=None, timeout=30, extra=(), outext=""):
+    args = list(extra) + ["-a", ADAPTER, "-o", "out.fastq" + outext]
     if cores > 1:
         args = ["-j", str(cores), "--buffer-size", str(buffer)] + args
-    return args + [name], cli.run(args + [name], {name: data}, sim=simulate, timeout=None if simulate else timeout)
+    r = cli.run(args + [name], {name: data}, sim=simulate, timeout=None if simulate else timeout)
+    if outext:
+        # the clauses look at out.fastq: decompress what was written (a failed run may leave an unfinished container)
+        raw = r.files.pop("out.fastq" + outext, None)
+        if raw is not None:
+            try:
+                r.files["out.fastq"] = cli.decompress(raw, "out.fastq" + outext)
+            except Exception as e:  # noqa
+                if r.exit == 0:
+                    raise Violation(f"exit status 0 but the output container is unreadable: {e} ({args})")
+    return args + [name], r
 
 
 def judge(what, args, r, wellformed, reason, in_records, full_out, ctx, sim_res=None):
@@ -269,7 +279,9 @@ def bigtrunc_case(draw):
     return {"sub": "bigtrunc", "n": draw(st.sampled_from([1500, 3000, 6000])), "seed": draw(st.integers(0, 10**6)),
             "cores": draw(st.sampled_from([1, 2, 3, 4])), "multi": draw(st.booleans()),
             "fracs": draw(st.lists(st.floats(0.03, 0.9999), min_size=5, max_size=5)),
-            "buffer": draw(st.sampled_from([4000, 20000, 100000]))}
+            "buffer": draw(st.sampled_from([4000, 20000, 100000])),
+            # compressed output may go through an external program whose pipe the worker processes inherit
+            "outext": draw(st.sampled_from(["", "", "", ".gz", ".xz", ".zst", ".bz2"]))}
 
 
 def check_bigtrunc(case, ctx):
@@ -290,7 +302,8 @@ def check_bigtrunc(case, ctx):
         cut = data[:off]
         okz, plain = gunzip_oracle(cut)
         ok, info = oracle_records(plain) if okz else (False, plain)
-        args, r = run_cutadapt(cut, "in.fastq.gz", case["cores"], case["buffer"], timeout=60)
+        args, r = run_cutadapt(cut, "in.fastq.gz", case["cores"], case["buffer"], timeout=60,
+                               outext=case.get("outext", ""))
         judge(f"truncation of a {len(data)}-byte gzip file at byte {off}", args, r, ok, None if ok else info,
               info if ok else None, full_out, ctx)
         n_mal += not ok
@@ -298,6 +311,7 @@ def check_bigtrunc(case, ctx):
             ctx.label("records-before-error:some")
     ctx.evaluations += len(case["fracs"])
     ctx.label(f"cores:{case['cores']}")
+    ctx.label("output:" + (case.get("outext") or "plain"))
     if n_mal:
         ctx.nontrivial_case({"records": case["n"], "cores": case["cores"], "gzip_bytes": len(data), "malformed_cuts": n_mal})
 
@@ -490,6 +504,8 @@ def proc_case(draw):
     c = draw(trunc_case("proc"))
     c["offsets"] = draw(st.lists(st.floats(0.02, 1.0), min_size=4, max_size=4))
     c["dest"] = draw(st.sampled_from(["file", "stdout"]))
+    # compressed output may go through an external program whose pipe the worker processes inherit
+    c["outext"] = draw(st.sampled_from(["", "", ".gz", ".xz", ".zst", ".bz2"]))
     return c
 
 
@@ -516,7 +532,8 @@ def check_proc(case, ctx):
         else:
             okz, plain = gunzip_oracle(cut)
             ok, info = oracle_records(plain) if okz else (False, plain)
-        args = ["-a", ADAPTER] + (["-o", "out.fastq"] if case.get("dest", "file") == "file" else []) + [name]
+        args = ["-a", ADAPTER] + (["-o", "out.fastq" + case.get("outext", "")] if case.get("dest", "file") == "file"
+                                  else []) + [name]
         if case["cores"] > 1:
             args = ["-j", str(case["cores"]), "--buffer-size", str(buffer)] + args
         r = cli.run_subprocess(args, {name: cut}, timeout=120)
@@ -534,7 +551,7 @@ def check_proc(case, ctx):
                 raise Violation(f"truncation at byte {off}: exit status {r.exit} but no error message on stderr "
                                 f"({args})", observed=r.stderr[-400:], tag="no-message")
         ctx.label("malformed" if not ok else "wellformed")
-        ctx.label("reads-to:" + case.get("dest", "file"))
+        ctx.label("reads-to:" + case.get("dest", "file") + (case.get("outext", "") if case.get("dest", "file") == "file" else ""))
     ctx.evaluations += n - 1
     ctx.label(f"cores:{case['cores']}")
     ctx.nontrivial_case({"container": cont, "cores": case["cores"], "runs": n})
